@@ -478,6 +478,10 @@ func (p *program) assignCheckerParams() error {
 var generatedFileCommentRE = regexp.MustCompile("Code generated .* DO NOT EDIT.")
 
 func (p *program) isGenerated(f *ast.File) bool {
+	if ast.IsGenerated(f) {
+		// The standard marker may follow a license header or a build constraint.
+		return true
+	}
 	return len(f.Comments) != 0 &&
 		generatedFileCommentRE.MatchString(f.Comments[0].Text())
 }
